@@ -8,7 +8,7 @@ import subprocess, os
 from . import common as C
 
 KEYS = ["61", "6162", "616263", "62", "6200", "62ff", "63", "ff", "00", "6161", "7a", "61ff", "6100"]
-INFO = ("e2 levels", "e2 snapshots")
+INFO = ("e2 levels", "e2 snapshots", "e2 lvdump")
 
 
 class Model:
